@@ -47,7 +47,8 @@ class Stream:
 
     `limit` (optional, term or int): the stream ends there (truncation)."""
 
-    def __init__(self, data, limit=None, max_reads=400, name='q'):
+    def __init__(self, data, limit=None, max_reads=400, name='q',
+                 whole=False):
         ctx = Ctx.cur
         self.ctx = ctx
         self.sym = ctx.mode == 'sym'
@@ -61,6 +62,7 @@ class Stream:
         self.max_reads = max_reads
         self.reads_after_eof = 0
         self.closed = False
+        self.whole = whole      # read(n) returns min(n, available) bytes
 
     # -- helpers
     def _pos_int(self):
@@ -108,6 +110,11 @@ class Stream:
             p = self._pos_int()
             self.pos = p + 1
             return SBytes(self.data[p:p + 1]).fold()
+        if self.whole:
+            p = self._pos_int()
+            q = min(p + concretize(n), concretize(mk(lim, 0, self.n)))
+            self.pos = q
+            return SBytes(self.data[p:q]).fold()
         q = z3.BitVec(ctx.fresh(self.name), W)
         ctx.inputs.append((str(q), 'int', q, None))
         ctx.add(z3.And(q > pos, q - pos <= E(n), q <= lim, q >= 0))
